@@ -261,6 +261,14 @@ impl Reporter {
         let id = &self.args.id;
         let (known, _fixed) = self.load_known();
         let replay_dir = self.args.root.join("evidence").join("replays");
+        // witnesses of earlier runs of this property are stale
+        if let Ok(rd) = std::fs::read_dir(&replay_dir) {
+            for e in rd.flatten() {
+                if e.file_name().to_string_lossy().starts_with(&format!("{}-", id)) {
+                    let _ = std::fs::remove_file(e.path());
+                }
+            }
+        }
         let mut unknown = 0usize;
         let mut known_hits = vec![];
         let mut violation_summaries = vec![];
